@@ -9,7 +9,7 @@ PlaceAll(P, vs) == [k \in 1 .. Len(P) |-> PosAt(P, vs, k - 1)]
 \* radii: equal across zero-length segments (where "linear along the branch" says nothing), otherwise varying
 RECURSIVE RadAt(_, _, _)
 RadAt(P, vs, i) == IF i = 0 THEN 2 ELSE IF vs[i + 1] = <<0, 0, 0>> THEN RadAt(P, vs, Par(P, i)) ELSE 1 + ((i * 2 + RadAt(P, vs, Par(P, i))) % 4)
-Shapes == UNION { SortedTopos(n) : n \in 2 .. MaxN }
+Shapes == UNION { Topos(n) : n \in 2 .. MaxN }        \* every numbering with the root at 0 (children may precede their parents)
 Trees == { t \in UNION { { [P |-> P, pos |-> PlaceAll(P, vs), rad |-> [k \in 1 .. Len(P) |-> RadAt(P, vs, k - 1)]] : vs \in [1 .. Len(P) -> Vecs] } : P \in Shapes } :
              CriticalsOK(t.P, t.pos) }
 Spacings == << <<1, 2>>, <<1, 1>>, <<3, 2>>, <<2, 1>>, <<10, 1>>, <<3, 4>> >>
